@@ -15,7 +15,7 @@ typedef Value<char> V;
 #define PAT 0
 #endif
 #ifndef MKIND
-#define MKIND 0   /* other member: 0 symbolic 64-bit number, 1 concrete one-unit string 'p'+i (keeps a mis-grouped result's shape concrete, so a key-position defect is decided instead of timing out) */
+#define MKIND 0   /* other member: 0 symbolic 64-bit number, 2 the same plus a further member "n" in object 0 ONLY (heterogeneous records: nothing of an earlier record may show up in a later one), 1 concrete one-unit string 'p'+i (keeps a mis-grouped result's shape concrete, so a key-position defect is decided instead of timing out) */
 #endif
 #ifndef KIND
 #define KIND 0     /* 0: one-unit string keys, 1: boolean keys, 2: null / string mix, 3: one-digit unsigned keys */
@@ -57,7 +57,7 @@ static bool same_text(const char *a, unsigned la, const char *b, unsigned lb) {
 }
 
 extern "C" void h_group() {
-    KeyVal k[NOBJ]; unsigned long long m[NOBJ];
+    KeyVal k[NOBJ]; unsigned long long m[NOBJ]; unsigned long long extra = vf_u64(); (void)extra;
     // grouping-key values: CONCRETE per query (PAT gives the group id of every object, base 3), because a symbolic key text makes the
     // hash-table shape symbolic and every ~Value/reset on it explodes (measured: no verdict in 300 s); the other members stay symbolic
     for (unsigned i = 0; i < NOBJ; i++) {
@@ -70,9 +70,12 @@ extern "C" void h_group() {
     V &arr = *new (&raw[0]) V;
     for (unsigned i = 0; i < NOBJ; i++) {
         V o;
-#if MKIND == 0
+#if MKIND == 0 || MKIND == 2
         if ((ORD >> i) & 1) { o["ym"] = SizeT64(m[i]); set_key(o, k[i]); }
         else                { set_key(o, k[i]); o["ym"] = SizeT64(m[i]); }
+#if MKIND == 2
+        if (i == 0) o["n"] = SizeT64(extra);
+#endif
 #else
         char ms = char('p' + i);
         if ((ORD >> i) & 1) { o["ym"] = V{&ms, SizeT{1}}; set_key(o, k[i]); }
@@ -100,9 +103,15 @@ extern "C" void h_group() {
     for (unsigned j = 0; j < NOBJ; j++) { if (gid[j] == gid[i]) { if (j < i) ++pos; ++gsize; } }
     vf_assert(grp->Size() == gsize, 5);                              // every input object in exactly one group
     const V *e = grp->GetValue(SizeT(pos));
+#if MKIND == 2
+    vf_assert(e != nullptr && e->IsObject() && e->Size() == (i == 0 ? 2u : 1u), 6);
+    { const V *nv = (e != nullptr) ? e->GetValue("n", SizeT{1}) : nullptr;
+      vf_assert((i == 0) ? (nv != nullptr && nv->IsUInt64() && nv->GetUInt64() == extra) : (nv == nullptr), 11); }   // members of one record never leak into another
+#else
     vf_assert(e != nullptr && e->IsObject() && e->Size() == 1, 6);   // grouping key removed, nothing else
+#endif
     const V *mv = (e != nullptr) ? e->GetValue("ym", SizeT{2}) : nullptr;
-#if MKIND == 0
+#if MKIND == 0 || MKIND == 2
     vf_assert(mv != nullptr && mv->IsUInt64() && mv->GetUInt64() == m[i], 7);   // other members unchanged
 #else
     vf_assert(mv != nullptr && mv->IsString() && mv->Length() == 1 && mv->StringStorage()[0] == char('p' + i), 7);
@@ -111,9 +120,9 @@ extern "C" void h_group() {
     vf_assert(gk != nullptr && gk->IsEqual(&txt[i][0], SizeT(tl[i])), 8);
     // the source array is unchanged
     const V *src = arr.GetValue(SizeT(i));
-    vf_assert(src != nullptr && src->IsObject() && src->Size() == 2, 9);
+    vf_assert(src != nullptr && src->IsObject() && src->Size() == ((MKIND == 2 && i == 0) ? 3u : 2u), 9);
     const V *sm = src->GetValue("ym", SizeT{2});
-#if MKIND == 0
+#if MKIND == 0 || MKIND == 2
     vf_assert(sm != nullptr && sm->GetUInt64() == m[i], 10);
 #else
     vf_assert(sm != nullptr && sm->IsString() && sm->Length() == 1, 10);
